@@ -15,7 +15,7 @@ What extraction drops / rewrites (complete list, reported in the evidence):
   * `cmp::min(`/`cmp::max(` -> `vmin(`/`vmax(` (prelude wrappers with an assumed std contract);
   * `debug_assert!(`/`debug_assert_eq!(a, b)` -> `assert!(`/`assert!(a == b)`;
   * `-> T` -> `-> (RET: T)` when `rename` is given (names the return value for the postcondition);
-  * visibility qualifiers `pub(crate)`/`pub` are kept; nothing else is touched.
+  * visibility qualifiers `pub(crate)`/`pub` are kept; a `pub(crate) const` item is emitted as a private `const`; nothing else is touched.
 A lost anchor, a changed loop count or an item that cannot be found is an infrastructure error (exit 2).
 """
 import json
@@ -34,6 +34,7 @@ DROPS = [
     "cmp::min/cmp::max calls renamed to the prelude wrappers vmin/vmax (assumed std contract r == min/max)",
     "debug_assert!(e) -> assert!(e), debug_assert_eq!(a,b) -> assert!(a == b) (debug-profile panics become obligations)",
     "return type `-> T` written `-> (name: T)` where the contract names the result",
+    "a `pub(crate) const NAME` item is emitted as a private `const NAME` (visibility only; Verus rejects pub(crate) consts, and the unit is one file)",
 ]
 
 
@@ -74,7 +75,12 @@ def find_item(src, kind, name, impl_of=None):
         if skip:
             continue
         if kind == "const":
-            e = src.index(";", s) + 1
+            # terminating `;` at bracket depth 0 (array types `[u8; 256]` carry one inside)
+            i, depth = s, 0
+            while i < len(src) and not (src[i] == ";" and depth == 0):
+                depth += (src[i] in "([{") - (src[i] in ")]}")
+                i += 1
+            e = i + 1
         else:
             # find body brace (skip parens / where clauses); struct may end with ';'
             i = s
@@ -148,6 +154,8 @@ def build_item(snap, d):
     s, e = find_item(src, d["kind"], d["name"], d.get("impl"))
     text = src[s:e]
     raw = text
+    if d["kind"] == "const" and text.startswith("pub(crate) const "):
+        text = text[len("pub(crate) "):]  # Verus rejects a pub(crate) const ("marked open but not pub"); one file, so private == crate
     if d["kind"] != "fn":
         return rewrite(text, d.get("mintype", "usize")), raw
     # split signature / body
